@@ -102,20 +102,20 @@ class SortUnit(Scenario):
             order = mm._sort_dependencies(available=set(available), elements=elements)  # noqa: SLF001
         except mm.MissingDependenciesError as e:
             ctx.true("MissingDependenciesError only if a required name is neither available nor provided", incomplete)
-            reported = {}
-            for line in str(e).split("\n")[1:]:
-                m = re.match(r"\t(\w+): \[(.*)\]", line)
-                if m:
-                    reported[m.group(1)] = set(re.findall(r"'(\w+)'", m.group(2)))
+            # format-independent reading of the message: which names of the universe / which components it mentions
+            words = set(re.findall(r"[A-Za-z_][A-Za-z_0-9]*", str(e)))
             claims = []
+            all_missing = sorted({u for nm in names for u in miss[nm]})
+            for u in all_missing:
+                claims.append(z3.Or(*[bits[nm][u] for nm in names]) == z3.BoolVal(u in words))
             for nm in names:
-                rep = reported.get(nm)
-                for u in miss[nm]:
-                    claims.append(bits[nm][u] == z3.BoolVal(rep is not None and u in rep))
-                if rep is not None:
-                    claims.append(z3.BoolVal(rep <= set(miss[nm])))
-                    claims.append(z3.BoolVal(len(rep) > 0))
-            ctx.true("MissingDependenciesError lists exactly the missing names per component", z3.And(*claims))
+                has_missing = z3.Or(*[bits[nm][u] for u in miss[nm]]) if miss[nm] else z3.BoolVal(False)
+                # a component with missing names is named; one without is not blamed (it may still be mentioned as a requirement
+                # only if it were missing, which a provided name never is)
+                claims.append(has_missing == z3.BoolVal(nm in words))
+            for u in [x for x in universe if x not in all_missing and x not in names and x not in {o for nm in names for o in provided[nm]}]:
+                claims.append(z3.BoolVal(u not in words))
+            ctx.true("MissingDependenciesError lists exactly the missing names and the components naming them", z3.And(*claims))
             return
         except mm.CircularDependencyError:
             ctx.true("CircularDependencyError only if complete and cyclic", z3.And(z3.Not(incomplete), cyclic))
@@ -235,7 +235,9 @@ class GraphAPI(Scenario):
             a = m.get_args(dict(state), T)
         except mm.MissingDependenciesError as e:
             ctx.true("MissingDependenciesError only for a missing name", missing)
-            ok = f"\t{names[self.missing_at]}: ['nope']" in str(e) and str(e).count("\t") == 1 if missing else False
+            words = set(re.findall(r"[A-Za-z_][A-Za-z_0-9]*", str(e)))
+            others = [n_ for i_, n_ in enumerate(names) if i_ != self.missing_at]
+            ok = bool(missing) and "nope" in words and names[self.missing_at] in words and not any(o in words for o in others)
             ctx.true("message lists exactly the missing name under its component", ok, info=str(e))
             return
         except mm.CircularDependencyError:
